@@ -14,12 +14,16 @@ in Python, including a bit-exact MurmurHash64A so the apply_case model really hi
 
 Things learnt from the sources that the inputs deliberately steer around (all are still
 deterministic, they just make the tool exit non-zero, hang or hit undefined behaviour):
-  * apply_case     : an empty target line runs `++i` past end() of an empty vector (UB).
-  * b64filter      : an empty document evaluates `doc.back()` on an empty string (UB).
-  * foldfilter     : invalid UTF-8 makes util::DecodeUTF8 throw inside a thread -> terminate.
+  * apply_case     : an empty target line runs `++i` past end() of an empty vector
+                     (observed: SIGSEGV, exit 139).
+  * b64filter      : an empty document evaluates `doc.back()` on an empty string (UB; benign
+                     in the release build, but avoided).
+  * foldfilter     : invalid UTF-8 makes util::DecodeUTF8 throw inside a thread -> terminate
+                     (observed: SIGABRT, exit 134).
   * truecase       : the `continue` in the NotUTF8Exception handler does not advance the
-                     token iterator; input is kept valid UTF-8.
-  * substitute     : needs >= 6 non-empty tab separated fields per line or it throws.
+                     token iterator (latent infinite loop); in this build util::ToLower maps
+                     bad bytes to U+FFFD instead of throwing, still input is kept valid UTF-8.
+  * substitute     : needs >= 6 non-empty tab separated fields per line or it aborts (exit 134).
   * train_case / apply_case : target words must be valid UTF-8 (util::ToLower throws).
   * warc_parallel  : more than one job, or more than one --inputs file, interleaves records
                      in scheduling order; every case here uses `-j 1` and one input.
